@@ -68,6 +68,8 @@ def render_plain(t):
         b += ''.join('out("u%d",%s);' % (i, nm) for nm in u['us'])
         b += ''.join(unit(k) for k in kids.get(i + 1, []))
         lets = ''.join('let %s="L%d_%s";' % (nm, i, nm) for nm in u['ls'])
+        if u.get('fl'):
+            return 'if(out.no)return;else{%s%s}' % (lets, b)
         if u['kind'] == 'F':
             if u['w']:
                 b = 'with({}){' + b + '}'
@@ -122,6 +124,10 @@ def render_tree(t, rnd):
         # block unit: every lexical scope kind the minifier renames on entry
         ls = list(u['ls'])
         b = inner(i, pm)
+        if u.get('fl'):
+            # flattened into the statement list of its function by optimizeStmtList
+            return rnd.choice(['if(out.no)return;else{%s%s}', 'if(out.no){return}else{%s%s}', 'if(!out.no){%s%s}else return;']) % (
+                ''.join('let %s="L%d_%s";' % (nm, i, nm) for nm in ls), b)
         styles = ['block', 'switch', 'if', 'finally', 'try']
         if len(ls) == 1:
             styles += ['catch', 'forof', 'for']
